@@ -94,7 +94,31 @@ impl ValSweep {
 
     /// C16: one pair of lengths, all representations; Err(known) for the open finding
     fn concat_pair(&self, la: usize, lb: usize, known: &mut u64) -> (Option<Failure>, u64) {
-        let (ab, bb) = (pat(la, 0x17), pat(lb, 0xB4));
+        self.concat_bytes(pat(la, 0x17), pat(lb, 0xB4), known)
+    }
+
+    /// an operand that is all zero bytes except ONE byte (at every position), next to partners of
+    /// several lengths that are all zero or patterned, on either side
+    fn concat_single_byte(&self, len: usize, pos: usize, known: &mut u64) -> (Option<Failure>, u64) {
+        let mut x = vec![0u8; len];
+        x[pos] = 1;
+        let mut evals = 0;
+        for p in [0usize, 3, 8, 9, 12, 17] {
+            for partner in [vec![0u8; p], pat(p, 0x5B)] {
+                for (a, b) in [(x.clone(), partner.clone()), (partner.clone(), x.clone())] {
+                    let (f, n) = self.concat_bytes(a, b, known);
+                    evals += n;
+                    if f.is_some() {
+                        return (f, evals);
+                    }
+                }
+            }
+        }
+        (None, evals)
+    }
+
+    fn concat_bytes(&self, ab: Vec<u8>, bb: Vec<u8>, known: &mut u64) -> (Option<Failure>, u64) {
+        let (la, lb) = (ab.len(), bb.len());
         let mut evals = 0;
         for ra in REPS {
             for rb in REPS {
@@ -242,6 +266,11 @@ impl ValSweep {
                 }
             }
             "C16" => {
+                for len in 1..=if t { 80u64 } else { 40 } {
+                    for pos in 0..len {
+                        v.push(("single-byte", len, pos));
+                    }
+                }
                 let sq = if t { 200u64 } else { 96 };
                 for a in 0..=sq {
                     for b in 0..=sq {
@@ -291,6 +320,7 @@ impl ValSweep {
             },
             "number" => self.number(a, b),
             "concat-lengths" => self.concat_pair(a as usize, b as usize, known),
+            "single-byte" => self.concat_single_byte(a as usize, b as usize, known),
             "label-character" => match char::from_u32(a as u32) {
                 Some(c) => self.label_char(c),
                 None => (None, 0),
